@@ -429,6 +429,10 @@ func runCLI(e *Env, rep *Report, rc *refCache, s cliScenario, cmd string, mu *sy
 	case cmd == "gen" && s.Form == "wire ./...":
 		// the default command takes gen's options too
 		args = append(s.Opts.args("gen", header), "./...")
+	case s.Form == "opts cmd ./...":
+		// options written BEFORE the command name: honoured like after it, or refused as a usage
+		// error that touches nothing - never accepted and dropped
+		args = append(append(s.Opts.args("gen", header), cmd), "./...")
 	case cmd == "gen" && (s.Form == "gen pkgs" || s.Form == "wire pkgs"):
 		// every package named explicitly, in scenario order
 		if s.Form == "gen pkgs" {
@@ -450,6 +454,13 @@ func runCLI(e *Env, rep *Report, rc *refCache, s cliScenario, cmd string, mu *sy
 	}
 	if res.Crashed() {
 		fail("crash", tail(res.Stderr, 2000))
+		return
+	}
+	if s.Form == "opts cmd ./..." && res.Exit == 2 && len(changed) == 0 {
+		mu.Lock()
+		rep.Held(s.sig(cmd) + ";refused-as-usage-error")
+		rep.Count("options_before_command_refused", 1)
+		mu.Unlock()
 		return
 	}
 	pkgs := s.Pkgs
@@ -687,6 +698,20 @@ func CheckC17(e *Env) int {
 		s.Form = "wire ./..."
 		s.Pkgs = []cliPkg{{P: cliS(k % 6), Class: 'S', Prior: []string{"stale", "absent", "identical"}[k%3]}, {P: cliN(k % 2), Class: 'N', Prior: "absent"}}
 		jobs = append(jobs, job{s, "gen"})
+	}
+	for _, o := range []cliOpts{{Prefix: "gen_"}, {Header: "ok"}, {Header: "missing"}, {Tags: "extra"}} {
+		for _, cmd := range []string{"gen", "diff"} {
+			if cmd == "diff" && o.Prefix != "" {
+				continue
+			}
+			s := genScenario(e, 7*k+3)
+			k++
+			s.ID = fmt.Sprintf("sh%02d", k)
+			s.Opts = o
+			s.Form = "opts cmd ./..."
+			s.Pkgs = []cliPkg{{P: cliS(k % 6), Class: 'S', Prior: []string{"stale", "absent", "identical"}[k%3]}, {P: cliN(k % 2), Class: 'N', Prior: "absent"}}
+			jobs = append(jobs, job{s, cmd})
+		}
 	}
 	{
 		// a package that analyses cleanly but whose generated text cannot be formatted (a byte
